@@ -226,10 +226,6 @@ theorem cts_cbc_enc_partial (h : Implements c k) (iv : List Nat) (hiv : IsBlock 
   rw [e1, e2, h.enc_ok _ (xor_isBlock (padded_isBlock hb hbl) hcl)]
   rfl
 
-theorem drop_len_sub {α} (A t : List α) (p : Nat) (h : t.length = p) : (A ++ t).drop ((A ++ t).length - p) = t := by
-  rw [List.length_append, h, Nat.add_sub_cancel, List.drop_left' rfl]
-theorem take_len_sub {α} (A t : List α) (p : Nat) (h : t.length = p) : (A ++ t).take ((A ++ t).length - p) = A := by
-  rw [List.length_append, h, Nat.add_sub_cancel, List.take_left' rfl]
 
 theorem cts_cbc_dec_partial (h : Implements c k) (iv : List Nat) (hiv : IsBlock c.len iv)
     (P' : List (List Nat)) (hP' : ∀ b ∈ P', IsBlock c.len b)
